@@ -158,3 +158,36 @@ def _unused(L):
 
 
 MODELS['datetime.timezone.utc'] = None
+
+
+# ---------------------------------------------------------------- calendar (Gregorian rules, exact)
+def _leap(y):
+    y = to_z3(y)
+    if z3.is_expr(y) and y.sort() != z3.IntSort():
+        y = z3.ToInt(y)
+    return z3.And(y % 4 == 0, z3.Or(y % 100 != 0, y % 400 == 0))
+
+
+@model('calendar.isleap')
+def _isleap(L, year):
+    if isinstance(year, int):
+        import calendar
+        return calendar.isleap(year)
+    return _leap(year)
+
+
+@model('calendar.monthrange')
+def _monthrange(L, year, month):
+    """(weekday of the first day - not modelled, number of days of the month)"""
+    if not isinstance(month, int):
+        raise Unsupported('calendar.monthrange with a symbolic month')
+    if not 1 <= month <= 12:
+        raise PyRaise(builtin_exc('ValueError'), 'bad month number')
+    days = [31, None, 31, 30, 31, 30, 31, 31, 30, 31, 30, 31][month - 1]
+    if days is None:
+        if isinstance(year, int):
+            import calendar
+            days = calendar.monthrange(year, 2)[1]
+        else:
+            days = z3.If(_leap(year), 29, 28)
+    return (L.ctx.fresh_int('weekday'), days)
